@@ -99,6 +99,10 @@ func userProps(r *RNG, size int, dom Domain) []ref.Prop {
 	n := 1 + r.Intn(3)
 	if size >= Medium && r.Chance(1, 6) {
 		n = 4 + r.Intn(12)
+		if r.Chance(1, 4) {
+			n = Pick(r, 127, 128, 129, 255, 256, 257) // element counts on the steps, too
+			size = Small
+		}
 	}
 	s := size
 	if s > Medium && !r.Chance(1, 8) {
@@ -130,6 +134,9 @@ func propsFor(r *RNG, m maskT, prefix string, ctx int, size int, dom Domain) []r
 		case id == 0x0b && ctx == ref.TPublish:
 			if m.has("subids") {
 				n := 1 + r.Intn(3)
+				if size >= Medium && r.Chance(1, 12) {
+					n = Pick(r, 127, 128, 255, 256)
+				}
 				for i := 0; i < n; i++ {
 					out = append(out, propValue(r, id, size, dom))
 				}
@@ -241,7 +248,7 @@ func Packet(r *RNG, t int, mask uint64, size int, dom Domain) *ref.Packet {
 		if m.has("more") {
 			n = 2 + r.Intn(4)
 			if size >= Medium && r.Chance(1, 8) {
-				n = 20 + r.Intn(200)
+				n = Pick(r, 20+r.Intn(200), 127, 128, 255, 256, 257)
 			}
 		}
 		for i := 0; i < n; i++ {
@@ -267,7 +274,7 @@ func Packet(r *RNG, t int, mask uint64, size int, dom Domain) *ref.Packet {
 		if m.has("more") {
 			n = 2 + r.Intn(6)
 			if size >= Medium && r.Chance(1, 8) {
-				n = 100 + r.Intn(400)
+				n = Pick(r, 100+r.Intn(400), 127, 128, 255, 256, 16383, 16384, 65535)
 			}
 		}
 		for i := 0; i < n; i++ {
@@ -280,7 +287,7 @@ func Packet(r *RNG, t int, mask uint64, size int, dom Domain) *ref.Packet {
 		if m.has("more") {
 			n = 2 + r.Intn(4)
 			if size >= Medium && r.Chance(1, 8) {
-				n = 20 + r.Intn(200)
+				n = Pick(r, 20+r.Intn(200), 127, 128, 255, 256, 257)
 			}
 		}
 		for i := 0; i < n; i++ {
